@@ -36,7 +36,7 @@ OBLIGATIONS = {"dscore:m=1": 20, "dscore:m>=2": 50, "dscore:perfect": 20,
                "dscore:constant-members": 5, "dscore:definition": 50, "pit:long-series": 4,
                "ad:extreme-values": 3, "ad:near-duplicates": 10, "ad:reject:several-outside": 10, "ensrank:ref": 50, "pit:random": 30,
                "pit:plain": 30, "pit:sudo": 30, "cvm": 50, "ad": 50, "ad:reject": 30,
-               "alpha": 20, "n=1-sample": 5}
+               "alpha": 20, "n=1-sample": 5, "dscore:huge-ensemble": 3}
 
 
 def M():
@@ -55,19 +55,21 @@ MAPS = {
     "cubic": lambda x: x ** 3 + x,
     "affine": lambda x: 2.5 * x - 7.0,
     "affine2": lambda x: 0.125 * x + 100.0,
+    # exact shifts and scalings to large magnitudes (values are multiples of 2^-15 at
+    # most a few thousands: every sum below is exact, gaps and ties are kept as they are)
+    "shift36": lambda x: x + 2.0 ** 36,
+    "negshift40": lambda x: x - 2.0 ** 37,
+    "scale34": lambda x: x * 2.0 ** 34,
 }
 
 
 # ---------------------------------------------------------------- reference ----
 def midrank_pooled(a, b):
     """sum of the mid-ranks of the members of a within the pooled sample a+b"""
-    pooled = np.concatenate([a, b])
-    s = 0.0
-    for v in a:
-        less = np.sum(pooled < v)
-        eq = np.sum(pooled == v)
-        s += less + (eq + 1) / 2.0
-    return s
+    pooled = np.sort(np.concatenate([a, b]))
+    less = np.searchsorted(pooled, a, side="left")
+    eq = np.searchsorted(pooled, a, side="right") - less
+    return float(math.fsum((less + (eq + 1) / 2.0).tolist()))
 
 
 def ensrank_ref(sim):
@@ -172,9 +174,11 @@ def gen_forecasts(rng, it, tier):
         # values on the k/2 lattice: gaps of 0.5
         case["eps"] = [1e-6, 1e-9, 1e-3, 0.05, 0.2][(it // 3) % 5]
     if usewide:
-        case["maps"] = ["arctan", "cubic", "affine", "affine2"]   # exp would overflow
+        case["maps"] = ["arctan", "cubic", "affine", "affine2", "shift36", "negshift40",
+                        "scale34"]   # exp would overflow
     if "dscore:fine-lattice" in tags:
-        case["maps"] = ["affine", "affine2"]      # the others merge neighbours
+        case["maps"] = ["affine", "affine2", "shift36", "negshift40", "scale34"]
+        # (the others merge neighbours)
     return case
 
 
@@ -459,6 +463,28 @@ def run(ctx):
         run_dscore_case(ctx, case, rng)
         if it % 40 == 0 and case["sim"].size <= 30:
             ctx.sample(case)
+        if it % 30 == 11:
+            # ensembles of tens of thousands of members (re-sampled or pooled
+            # forecasts): sizes around sqrt(2^31), 2^16 and 1e5
+            itg = it // 30 + ctx.shard
+            mh = [46341, 65537, 100001, 46340, 65535, 92683][itg % 6]
+            nh = [2, 3][itg % 2]
+            lat_ = np.arange(-6, 7) / 2.0
+            obs_h = rng.permutation(lat_)[:nh].copy()
+            order_h = np.argsort(np.argsort(obs_h))
+            gk = ["perfect", "inverse", "overlap"][(itg // 2) % 3]
+            tg = ["dscore:huge-ensemble", "dscore:m>=2"]
+            if gk == "overlap":
+                sim_h = rng.choice(lat_, size=(nh, mh))
+            else:
+                sim_h = (order_h * 0.5 - 3.0)[:, None] + \
+                    rng.choice([0.0, 0.0625, 0.125, 0.25], size=(nh, mh))
+                if gk == "inverse":
+                    sim_h = -sim_h
+                tg.append("dscore:" + gk)
+            run_dscore_case(ctx, {"kind": "dscore", "gen": "huge-" + gk, "obs": obs_h,
+                                  "sim": sim_h, "tags": tg,
+                                  "maps": ["affine", "shift36"]}, rng)
         # pit
         n = int(rng.integers(2, 25))
         m = int(rng.integers(1, 13))
